@@ -675,6 +675,72 @@ def twogate_part(acc, which, total):
                 f"gates g1->(t1|t2), g2->(t3|t4), free t5; producers of x: {S}, ordering signal {sig}, gates listed {'first' if gf else 'last'}: constructor says {st} ({msg}), rule says {'valid' if exp else 'conflict'}",
             )
 
+# ---------------------------------------------------------------- (a3) exclusive branches of a gate with three targets
+def threeway_configs():
+    """route g -> (t1 | t2 | t3), t_i -> o_i; a join node j consuming a non-empty subset of {o1, o2, o3} and a node p consuming one
+    o_k; the name x is produced by j and by (p or t_k itself).  j is exclusive with something under t_k only when j hangs under
+    exactly ONE other target."""
+    for r in (1, 2, 3):
+        for sj in itertools.combinations((1, 2, 3), r):
+            for k in (1, 2, 3):
+                for second in ("p", "t"):
+                    for multi in (False, True):
+                        yield sj, k, second, multi
+
+
+def threeway_program(sj, k, second, multi):
+    nodes = [T.route("g", ["e0"], ["t1", "t2", "t3"], multi=multi)]
+    for i in (1, 2, 3):
+        nodes.append(T.fn(f"t{i}", ["e0"], [f"o{i}"] + (["x"] if second == "t" and i == k else [])))
+    nodes.append(T.fn("j", [f"o{i}" for i in sj], ["x"]))
+    if second == "p":
+        nodes.append(T.fn("p", [f"o{k}"], ["x"]))
+    return T.prog(nodes)
+
+
+def threeway_expected(sj, k, second, multi):
+    other = "p" if second == "p" else f"t{k}"
+    edges = {(f"t{i}", "j") for i in sj}
+    if second == "p":
+        edges.add((f"t{k}", "p"))
+
+    def desc(a):
+        seen, todo = {a}, [a]
+        while todo:
+            u = todo.pop()
+            for (p_, q) in edges:
+                if p_ == u and q not in seen:
+                    seen.add(q)
+                    todo.append(q)
+        return seen
+
+    if other in desc("j") or "j" in desc(other):
+        return True  # ordered by a dependency
+    if multi:
+        return False  # a multi-target gate may select several targets at once: its branches are not exclusive
+    d = {i: desc(f"t{i}") for i in (1, 2, 3)}
+    excl = {i: d[i] - set().union(*(d[m] for m in (1, 2, 3) if m != i)) for i in (1, 2, 3)}
+    return any("j" in excl[a] and other in excl[b] for a in (1, 2, 3) for b in (1, 2, 3) if a != b)
+
+
+def threeway_part(acc):
+    for cfg in threeway_configs():
+        exp = threeway_expected(*cfg)
+        st, msg = try_build(threeway_program(*cfg))
+        acc.evaluations += 1
+        acc.key(("threeway", cfg))
+        acc.outcomes[("threeway", exp, st)] += 1
+        if st == "config-error" and exp:
+            acc.observations["constructor rejects a three-target producer configuration the reference rule considers ordered/exclusive (conservative, not judged)"] += 1
+            continue
+        if st == "other-exception" or (st == "accepted") != exp:
+            sj, k, second, multi = cfg
+            acc.violation(
+                {"symptom": "producer-conflict-verdict", "expected_valid": exp, "got": st, "feature": "three-target-gate"},
+                {"kind": "threeway", "cfg": [list(sj), k, second, multi]},
+                f"route g->(t1|t2|t3){' multi-target' if multi else ''}, join j under targets {sj} and {'p under' if second == 'p' else 'target'} t{k} both produce x: constructor says {st} ({msg}), rule says {'valid' if exp else 'conflict'}",
+            )
+
 
 def shards(tier, seed):
     nb = sum(1 for _ in bases())
@@ -683,6 +749,7 @@ def shards(tier, seed):
     out += [(tier, seed, "types", i, k) for i in range(k)]
     out += [(tier, seed, "conflict", i, 16) for i in range(16)]
     out += [(tier, seed, "twogate", i, 4) for i in range(4)]
+    out += [(tier, seed, "threeway", 0, 1)]
     return out
 
 
@@ -695,6 +762,8 @@ def run_shard(shard):
         conflict_part(acc, i, k)
     elif part == "twogate":
         twogate_part(acc, i, k)
+    elif part == "threeway":
+        threeway_part(acc)
     else:
         types_part(acc, tier, i, k)
     return acc
@@ -717,6 +786,11 @@ def replay(rep):
             return [] if is_type_compatible(a, b) == exp else [f"verdict differs for {a!r} -> {b!r}"]
         st, _ = try_build(_chain_with(a, b, rep["pos"]))
         return [] if (st == "accepted") == exp else [f"strict graph verdict differs for {a!r} -> {b!r}"]
+    if rep["kind"] == "threeway":
+        c = rep["cfg"]
+        cfg = (tuple(c[0]), c[1], c[2], c[3])
+        st, msg = try_build(threeway_program(*cfg))
+        return [] if (st == "accepted") == threeway_expected(*cfg) and st != "other-exception" else [f"three-target conflict verdict {st} {msg}"]
     if rep["kind"] == "twogate":
         c = rep["cfg"]
         cfg = (tuple(c[0]), tuple(c[1]) if c[1] else None, c[2])
